@@ -373,7 +373,8 @@ def feature_hist(ck: Ck, spec: dict) -> bool:
 
 
 def search(ck: Ck) -> None:
-    n = ck.budget(450, 9000)
+    # quick: 450 maps; quick with a broken tie: 3000 (about 90 s); thorough: 9000
+    n = 9000 if ck.thorough else ck.budget(450, 3000)
     found: dict[str, tuple[dict, str, dict]] = {}
 
     def consider(spec: dict, label: str) -> None:
